@@ -69,6 +69,25 @@ TYPES = {
     "mix": ("(uint8, bool)", ["TUint 8", "TBool"], [200, 1], [(0, 256), (1, 2)], None, None),
     "none": (None, None, [], [], None, None),
 }
+# session 3 (seeded change C12_m5): EVERY word-sized type of the language, top level and nested in tuples / static arrays:
+# interface values, flags, decimals, more bytesM / intN widths.  An out-of-range word in that slot must revert.
+DECLS = "flag Fl:\n    A\n    B\n    C\n\ninterface Token:\n    def balanceOf(a: address) -> uint256: view\n\nstruct P:\n    n: uint256\n    t: Token\n    f: Fl\n\n"
+EXT_TYPES = {
+    "tok": ("Token", ["TAddress"], [2**160 - 1], [(0, 2**160), (0, 2**160 + 5), (0, 2**255), (0, W - 1)], None, None),
+    "flag": ("Fl", ["TUint 3"], [5], [(0, 8), (0, 2**255), (0, W - 1)], None, None),
+    "dec": ("decimal", ["TInt 168"], [W - 2**167], [(0, 2**167), (0, W - 2**167 - 1)], None, None),
+    "b1": ("bytes1", ["TBytesM 1"], [0xAB << 248], [(0, (0xAB << 248) | 1), (0, 1 << 247)], None, None),
+    "b20": ("bytes20", ["TBytesM 20"], [(2**160 - 1) << 96], [(0, ((2**160 - 1) << 96) | 1), (0, 1 << 95)], None, None),
+    "i8": ("int8", ["TInt 8"], [W - 128], [(0, 128), (0, W - 129)], None, None),
+    "u160": ("uint160", ["TUint 160"], [2**160 - 1], [(0, 2**160)], None, None),
+    "tuptok": ("(uint256, Token)", ["TUint 256", "TAddress"], [W - 1, 2**160 - 1], [(1, 2**160), (1, W - 1)], None, None),
+    "tupmix": ("(Fl, decimal, bytes4)", ["TUint 3", "TInt 168", "TBytesM 4"], [7, 2**167 - 1, 0x01020304 << 224],
+               [(0, 8), (1, 2**167), (2, (0x01020304 << 224) | 1)], None, None),
+    "sarrtok": ("Token[2]", ["TAddress", "TAddress"], [1, 2**160 - 1], [(0, 2**160), (1, 2**160)], None, None),
+    "stp": ("P", ["TUint 256", "TAddress", "TUint 3"], [9, 2**160 - 1, 7], [(1, 2**160), (2, 8)], None, None),
+    "nesttup": ("(uint256, (Token, bool))", ["TUint 256", "TAddress", "TBool"], [3, 5, 1], [(1, 2**160), (2, 2)], None, None),
+}
+TYPES.update(EXT_TYPES)
 MUTS = {"n": ("nonpayable", "Nonpayable"), "v": ("view", "ViewM"), "p": ("payable", "Payable"), "u": ("pure", "Pure")}
 VALUE = 7
 GASKW = 100000
@@ -84,7 +103,7 @@ def dyn_caller_source():
 
 
 def caller_source():
-    L = ["interface C:"]
+    L = [DECLS + "interface C:"]
     for ty, (vt, *_r) in TYPES.items():
         for m, (mut, _) in MUTS.items():
             ret = f" -> {vt}" if vt else ""
@@ -115,7 +134,14 @@ def caller_source():
             L.extend(decos + [f"def {name}(x: uint256){ret}:", f"    {'return ' if vt else ''}{expr}", ""])
         fns.append((name, ty, m, skip, dflt, value, gas))
 
+    for ty in EXT_TYPES:
+        # (code size: two mutabilities, no keyword variants; `tok` also in statement position below)
+        emit(f"c_{ty}_n_00", ty, "n", False, False)
+        if ty in ("tok", "tuptok", "flag", "dec"):
+            emit(f"c_{ty}_v_00", ty, "v", False, False)
     for ty in TYPES:
+        if ty in EXT_TYPES:
+            continue
         has_d = TYPES[ty][4] is not None
         for m in ("n", "v", "u"):
             # (callers are mutable -- nonpayable -- functions: view AND pure interface functions must go out by STATICCALL)
@@ -125,8 +151,10 @@ def caller_source():
                 for dflt in ((False, True) if has_d else (False,)):
                     emit(f"c_{ty}_{m}_{int(skip)}{int(dflt)}", ty, m, skip, dflt)
     # the same extcalls in statement position (result discarded), every return type that has one
+    for ty in ("tok", "tuptok"):
+        emit(f"s_{ty}_n_00", ty, "n", False, False)
     for ty in TYPES:
-        if ty == "none":
+        if ty == "none" or ty in EXT_TYPES:
             continue
         has_d = TYPES[ty][4] is not None
         for skip in (False, True):
